@@ -206,6 +206,7 @@ struct tname {
     X(zoo::AggDerived) X(zoo::AggDerived&) X(bool (*)(int, int)) X(zoo::Agg const*)
 // round 2: types missing from the first zoo.  R2_CORE is the part that also runs in the quick tier.
 #define C15_ZOO_R2_CORE(X)                                                                                \
+    X(zoo::ConstRvalueDeleted) X(zoo::NonConstLvalueDeleted) X(zoo::ConstRvalueAssignDeleted) X(zoo::ConstRvalueDeleted const) \
     X(zoo::AggOfExplicit) X(zoo::AggOfAggOfExplicit) X(zoo::AggOfExplicit volatile) X(zoo::ExplicitDefault[2])     \
     X(zoo::AggOfExplicit[2]) X(zoo::AggOfExplicit const)                                                  \
     X(__int128) X(unsigned __int128 const) X(std::nullptr_t volatile)                                     \
